@@ -160,6 +160,18 @@ def warm(run, w, r, uniq, n=6):
     for m in gen_history(r, w.layout, n, uniq):
         # valid-biased prefix so that the state is non-trivial; mismatches here are C04's business but are still reported
         step(run, w, m, {'phase': 'prefix', 'layout': w.layout, 'm': m})
+    if r.random() < 0.2:
+        # the application swaps one of its tables for another (smaller or shifted) block at run time: context.register(fc, fx, block)
+        from pymodbus.datastore import ModbusSequentialDataBlock
+        t, fc = r.choice([('h', 3), ('c', 1), ('i', 4), ('d', 2)])
+        start, n = r.choice([0, 1, 2, 5]), r.choice([1, 3, 8])
+        vals = [(r.random() < 0.5) if t in 'cd' else r.randrange(65536) for _ in range(n)]
+        blk = ModbusSequentialDataBlock(start, list(vals))
+        w.slave.register(fc, t, blk)
+        w.blocks[w.uid][t] = blk
+        off = 0 if w.layout['zero_mode'] else 1
+        w.tgt.t[t] = {start + k - off: v for k, v in enumerate(vals) if 0 <= start + k - off <= 0xFFFF}
+        run.count('tables_replaced_at_run_time')
     if r.random() < 0.25:
         # the application resets its datastore between requests: values go back to zero, the table extents stay what they were
         w.slave.reset()
